@@ -54,7 +54,7 @@ func strLens(tier Tier) []int {
 	if tier == Quick {
 		return []int{255, 257, 2049}
 	}
-	return []int{255, 256, 257, 2047, 2048, 2049}
+	return []int{255, 256, 257, 2047, 2048, 2049, 70000}
 }
 
 func fill(n int) string {
@@ -170,6 +170,9 @@ func containerSizes(t *ref.Type, tier Tier) []int {
 	s := []int{3, 8, 9}
 	if t.Kind != ref.KMap {
 		s = append(s, 1100) // wide: more elements than any per-call budget (depth bound, small scratch blocks)
+	}
+	if tier == Thorough && t.Elem != nil && t.Elem.Kind.FixedWidth() > 0 && t.Kind != ref.KMap {
+		s = append(s, 70000) // more than 65535 elements
 	}
 	if tier == Thorough {
 		if t.Kind == ref.KMap {
@@ -333,12 +336,19 @@ func StructValues(s *ref.Struct, tier Tier, maxProduct int) []*ref.Val {
 		return out
 	}
 	out = append(out, mk(idx))
+	wideStruct := len(idx) > 6
 	for i := range idx {
 		for a := 1; a < len(alph[i]); a++ {
 			idx[i] = a
 			out = append(out, mk(idx))
 			for j := i + 1; j < len(idx); j++ {
+				if wideStruct && (j != i+1 || a > 3) {
+					continue // wide structs: second deviation only in the next field, first few values
+				}
 				for b := 1; b < len(alph[j]); b++ {
+					if wideStruct && b > 3 {
+						break
+					}
 					idx[j] = b
 					out = append(out, mk(idx))
 				}
